@@ -18,7 +18,7 @@ FUNCTIONS = ["Scalar.__mul__/__truediv__/__floordiv__/__pow__/__rmul__/__rtruedi
 BOUNDS = {
     "quick": "values: all reals (divisors != 0 by path condition); both operands drawn from shapes %s over 3 units per type, seeded sample "
              "of 500 (shape pair, unit assignment) configurations x operators *,/,// plus a**n n<=3; exponents reach -4..4" % exprs.QUICK,
-    "thorough": "values: all reals; shapes %s, 4 units per length, categories length+depth, seeded sample of 6000 configurations; a**n n<=4"
+    "thorough": "values: all reals; shapes %s, 4 units per length, categories length+depth, seeded sample of 30000 configurations; a**n n<=4"
                 % exprs.THOROUGH,
 }
 ASSUMPTIONS = ["A-FP: floats are exact reals", "dimensional model: magnitude = value * prod(slope(tobase_unit)^exp), scale-only units",
@@ -29,7 +29,7 @@ CHUNK = 6
 def items(tier, seed):
     rng = random.Random(seed)
     names = exprs.QUICK if tier == "quick" else exprs.THOROUGH
-    n = 500 if tier == "quick" else 6000
+    n = 500 if tier == "quick" else 30000
     nu = 3 if tier == "quick" else 4
     pool = {nm: exprs.instances(nm, n_units=nu, with_cats=(tier != "quick")) for nm in names}
     out = []
